@@ -66,6 +66,13 @@ pub struct ValidCase {
     /// later time; 3: audio earlier than the previous audio; 4: video with NaN timestamp
     #[serde(default)]
     pub rejects: Vec<(u8, u8)>,
+    /// false: composition offsets of the genes are ignored (pts == dts everywhere)
+    #[serde(default = "default_true")]
+    pub reorder: bool,
+}
+
+fn default_true() -> bool {
+    true
 }
 
 pub const FPS: [f64; 12] =
@@ -337,7 +344,8 @@ pub fn lower(c: &ValidCase) -> Lowered {
             let t = ticks_exact(v);
             (v, v, t.tick, t.tick, t.tie)
         } else {
-            let pts_tick = if g.cts >= 0 { dts + g.cts as u64 } else { dts.saturating_sub((-g.cts) as u64) };
+            let cts = if c.reorder { g.cts } else { 0 };
+            let pts_tick = if cts >= 0 { dts + cts as u64 } else { dts.saturating_sub((-cts) as u64) };
             let ds = secs(dts, g.jit);
             let ps = if pts_tick == dts { ds } else { secs(pts_tick, g.jit) };
             (ds, ps, dts, pts_tick, false)
@@ -764,32 +772,32 @@ pub fn agene_strategy() -> impl Strategy<Value = AGene> {
 
 /// General valid scenario. `maxv`/`maxa`: upper bounds for the number of frames.
 pub fn valid_case_strategy(maxv: usize, maxa: usize) -> impl Strategy<Value = ValidCase> {
-    (any::<bool>(), cfg_strategy()).prop_flat_map(move |(reorder, cfg)| {
-        (
-            Just(cfg),
-            prop_oneof![2 => Just(0u64), 2 => 0u64..1_000_000, 1 => 0u64..40_000_000_000],
-            prop_oneof![2 => Just(0u32), 1 => 1u32..3, 2 => 0u32..200_000, 1 => 0u32..60_000_000],
-            vec(vgene_strategy(reorder), 0..=maxv),
-            vec(agene_strategy(), 0..=maxa),
-            option::weighted(0.3, prop_oneof![Just(3000u32), Just(3003u32), Just(3750u32), Just(1500u32), 1u32..100000]),
-            if reorder { Just(None).boxed() } else { option::weighted(0.2, 0u8..12).boxed() },
-            0u8..3,
-            0u8..24,
-            (0u8..5, prop_oneof![1 => Just(Vec::new()), 1 => vec((any::<u8>(), 0u8..5), 1..4)]),
-        )
-            .prop_map(|(cfg, v_start, a_off, video, audio, const_rate, fps_mode, use_dts, order, (finish, rejects))| ValidCase {
-                cfg,
-                v_start,
-                a_off,
-                video,
-                audio,
-                const_rate,
-                fps_mode,
-                use_dts,
-                order,
-                finish,
-                rejects,
-            })
+    (
+        (any::<bool>(), cfg_strategy()),
+        prop_oneof![2 => Just(0u64), 2 => 0u64..1_000_000, 1 => 0u64..40_000_000_000],
+        prop_oneof![2 => Just(0u32), 1 => 1u32..3, 2 => 0u32..200_000, 1 => 0u32..60_000_000],
+        vec(vgene_strategy(true), 0..=maxv),
+        vec(agene_strategy(), 0..=maxa),
+        option::weighted(0.3, prop_oneof![Just(3000u32), Just(3003u32), Just(3750u32), Just(1500u32), 1u32..100000]),
+        option::weighted(0.2, 0u8..12),
+        0u8..3,
+        0u8..24,
+        (0u8..5, prop_oneof![1 => Just(Vec::new()), 1 => vec((any::<u8>(), 0u8..5), 1..4)]),
+    )
+        .prop_map(|((reorder, cfg), v_start, a_off, video, audio, const_rate, fps_mode, use_dts, order, (finish, rejects))| ValidCase {
+            cfg,
+            v_start,
+            a_off,
+            video,
+            audio,
+            const_rate,
+            fps_mode: if reorder { None } else { fps_mode },
+            use_dts,
+            order,
+            finish,
+            rejects,
+            reorder,
+        })
             .prop_perturb(|mut c, mut rng| {
                 use proptest::prelude::RngCore;
                 // "one frame stamped early/late, then the stream recovers": deltas d, d-k, d+k, d ... whose sum equals n*d
@@ -825,5 +833,4 @@ pub fn valid_case_strategy(maxv: usize, maxa: usize) -> impl Strategy<Value = Va
                 }
                 c
             })
-    })
 }
